@@ -2029,9 +2029,9 @@ impl<'a> TokenBasedLuaGenerator<'a> {
     fn ends_with_name(&self) -> bool {
         let is_name_character = |c: char| c.is_ascii_alphanumeric() || c == '_';
         let before = self.output.trim_end_matches(is_name_character);
-        self.output[before.len()..]
-            .chars()
-            .next()
+        self.output
+            .strip_prefix(before)
+            .and_then(|name| name.chars().next())
             .is_some_and(|first| !first.is_ascii_digit())
     }
 
